@@ -44,8 +44,11 @@ pub fn make_seed(i: u64, rng: &mut Rng) -> Option<Seed> {
     shape.meta = if i % 7 == 0 { rng.bytes(3) } else { vec![] };
     let shape = Arc::new(shape);
     let mut options = random_options(rng, &shape, ext, 8);
-    let q = rng.range(3, 7).min(shape.n() * options.blowup_factor() - 1);
-    options = ProofOptions::new(q, options.blowup_factor(), if i % 5 == 0 { 3 } else { 0 }, ext, options.to_fri_options().folding_factor(), options.to_fri_options().remainder_max_degree());
+    // every sixth seed asks for a single query without grinding: an edit that re-seeds the coin can
+    // then be re-aligned with the opened position by scanning the nonce (see `recommitted` below)
+    let single = i % 6 == 5;
+    let q = if single { 1 } else { rng.range(3, 7).min(shape.n() * options.blowup_factor() - 1) };
+    options = ProofOptions::new(q, options.blowup_factor(), if i % 5 == 0 && !single { 3 } else { 0 }, ext, options.to_fri_options().folding_factor(), options.to_fri_options().remainder_max_degree());
     let (cols, values) = stark::gen_trace(fd, &shape, rng, TraceKind::Random);
     let inst = Instance { fd, hs, shape, options, cols, values };
     let proof = match stark::prove(&inst, false) {
@@ -98,6 +101,7 @@ pub fn all_mutants(seed: &Seed, rng: &mut Rng, quick: bool) -> Vec<Mutant> {
         v.extend(rng.bytes(extra));
         out.push(Mutant { class: "valid-prefix+random".into(), bytes: v });
     }
+    out.extend(recommitted(seed, quick));
     // structurally valid proofs with inconsistent components (edited through the public fields)
     let mut sem: Vec<(&str, Proof)> = Vec::new();
     for nq in [0u8, 1, 2, 254, 255] {
@@ -141,6 +145,63 @@ pub fn all_mutants(seed: &Seed, rng: &mut Rng, quick: bool) -> Vec<Mutant> {
     sem.push(("context-of-another-proof", p));
     for (what, p) in sem {
         out.push(Mutant { class: format!("semantic:{what}"), bytes: p.to_bytes() });
+    }
+    out
+}
+
+/// single-query seeds: the FRI remainder is shortened / extended and its commitment (the last digest
+/// of the commitments) recomputed, so that the edit survives the commitment check; the changed
+/// commitment re-seeds the coin, so the nonce is scanned to re-align the drawn position with the
+/// opened one - some of these inputs reach the remainder checks of the FRI verifier
+pub fn recommitted(seed: &Seed, quick: bool) -> Vec<Mutant> {
+    let mut out = Vec::new();
+    let o = &seed.inst.options;
+    if o.num_queries() != 1 || o.grinding_factor() != 0 {
+        return out;
+    }
+    let ds = digest_size(seed.inst.hs);
+    let field = |name: &str| seed.map.fields.iter().find(|f| f.name == name);
+    let (Some(cm), Some(nonce)) = (field("commitments"), field("pow_nonce")) else { return out };
+    let (a, b) = seed.map.fri_remainder;
+    let rem = &seed.bytes[a..b];
+    let base = field("context.field_modulus").map(|f| f.len).unwrap_or(0);
+    let elem = base * o.field_extension().degree() as usize;
+    if elem == 0 || rem.len() % elem != 0 || cm.len < ds {
+        return out;
+    }
+    let n = rem.len() / elem;
+    let mut variants: Vec<(String, Vec<u8>)> = Vec::new();
+    for keep in [1usize, n / 2, n.saturating_sub(1)] {
+        if keep >= 1 && keep < n {
+            variants.push((format!("shortened-to-{}", if keep == 1 { "1".to_string() } else if keep == n / 2 { "half".to_string() } else { "n-1".to_string() }), rem[..keep * elem].to_vec()));
+        }
+    }
+    let mut ext1 = rem.to_vec();
+    ext1.extend(vec![0u8; elem]);
+    variants.push(("extended-by-zero-coefficient".into(), ext1));
+    let mut dbl = rem.to_vec();
+    dbl.extend(vec![0u8; rem.len()]);
+    variants.push(("doubled-with-zero-coefficients".into(), dbl));
+    variants.sort();
+    variants.dedup();
+    for (what, nr) in variants {
+        let Some(digest) = stark::remainder_commitment(seed.inst.fd, seed.inst.hs, o.field_extension(), &nr) else { continue };
+        if digest.len() != ds || nr.len() > u16::MAX as usize {
+            continue;
+        }
+        let mut v = seed.bytes.clone();
+        // remainder and its u16 length prefix (the remainder follows the commitments in the layout)
+        v.splice(a..b, nr.iter().copied());
+        v[a - 2..a].copy_from_slice(&(nr.len() as u16).to_le_bytes());
+        let ce = cm.off + cm.len;
+        v[ce - ds..ce].copy_from_slice(&digest);
+        let shift = nr.len() as isize - (b - a) as isize;
+        let noff = (nonce.off as isize + shift) as usize;
+        for k in 0..if quick { 96u64 } else { 1024 } {
+            let mut w = v.clone();
+            w[noff..noff + 8].copy_from_slice(&k.to_le_bytes());
+            out.push(Mutant { class: format!("remainder-{what}-recommitted+nonce-scan"), bytes: w });
+        }
     }
     out
 }
